@@ -69,6 +69,12 @@ class Gen2(M.Gen):
 
     def loop_with(self, d, inner):
         r = self.rng
+        if r.random() < 0.3:
+            # the idiom of the scopeName documentation: the loop body names its scope in EVERY round (each round is a new scope) and
+            # may leave it by name; behind the loop the program goes on
+            nm = r.choice(["l1", "l2"])
+            tail = [E(Bin("breakOut", self.num(0), S(nm))) if r.random() < 0.5 else E(Un("breakOut", S(nm)))] if r.random() < 0.5 else []
+            inner = [E(Un("scopeName", S(nm))), self.mark(S(nm))] + list(inner) + ([E(Bin("then", Un("if", self.boolean(min(d, 1))), Code(*tail)))] if tail else [])
         k = r.randint(0, 6)
         if k == 0:
             return E(Bin("forEach", Code(self.mark(Arr(Var("_x"), Var("_forEachIndex"))), *inner), self.arr(0)))
